@@ -501,6 +501,8 @@ impl TypeChecker {
                     self.check_constraints(*span, ctx, target_ty)?;
                 } else {
                     self.unify(*span, ctx, expression_ty, target_ty)?;
+                    // Unifying a type with itself (`x -= x`) doesn't check the new constraints.
+                    self.check_constraints(*span, ctx, target_ty)?;
                 }
                 self.unify_option(*span, ctx, expression_ret, target_ret)
             }
@@ -838,6 +840,7 @@ impl TypeChecker {
                 UniOp::Neg => {
                     let (a_ret, a) = self.expression(a, ctx)?;
                     self.add_constraint(a, *span, Constraint::Neg);
+                    self.check_constraints(*span, ctx, a)?;
                     with_ret(a_ret, a)
                 }
                 UniOp::Not => {
